@@ -125,6 +125,10 @@ pub fn run(scn: &Scenario, fault: &Fault) -> SimResult<RunOut> {
         wire.with(|w| {
             if scn.one_byte_reads {
                 w.read_chunks = vec![1];
+            } else if scn.sched % 3 == 0 {
+                // a third of the scenarios: the delivered bytes reach the client in alternating small and large
+                // reads (so a response is split and the read that completes it also brings the following ones)
+                w.read_chunks = vec![3 + ((scn.sched >> 8) % 60) as usize, 150 + ((scn.sched >> 16) % 2000) as usize];
             }
             if scn.write_chunk > 0 {
                 w.write_max = vec![scn.write_chunk as usize];
